@@ -88,3 +88,97 @@ Theorem C03_destroy_range_exact :
     post (om_destroy_n r base n) s (fun _ s' => st_is s' (fun l => negb (inrng r base n l) && f l) bs nb) (fun _ => False).
 Proof. exact EffectsProofs.om_destroy_n_post. Qed.
 Print Assumptions C03_destroy_range_exact.
+
+(* ---- Array<Item, MemManager>::Data (internalCapacity = 0).  [arr_world d ext s]: the world consists of exactly the array d
+   (a_count d live items in its block, one block of a_cap d * sizeof(Item) bytes from manager mgr) plus non-heap cells ext. *)
+
+(* Data::Reset with the items-creator of pvGrow / Shrink: both relocation categories, every schedule. On success the world is
+   exactly the new array (old block freed, old cells raw); on an exception exactly the old array (new block freed). *)
+Theorem C03_array_regrow_no_leak :
+  forall c mgr isz d ext s capacity,
+    arr_world mgr isz d ext s -> capacity <> O ->
+    post (array_regrow c mgr isz d capacity) s
+         (fun d' s' => arr_world mgr isz d' ext s' /\ a_count d' = a_count d /\ a_cap d' = capacity)
+         (fun s' => arr_world mgr isz d ext s').
+Proof. exact EffectsProofs.array_regrow_post. Qed.
+Print Assumptions C03_array_regrow_no_leak.
+
+(* Data::Reset with the items-creator of pvAddBackGrow(ItemCreator) (RelocateCreate) *)
+Theorem C03_array_addback_grow_no_leak :
+  forall c mgr isz d ext s capacity arg,
+    arr_world mgr isz d ext s -> capacity <> O -> ext arg = true ->
+    post (array_addback_grow c mgr isz d capacity arg) s
+         (fun d' s' => arr_world mgr isz d' ext s' /\ a_count d' = S (a_count d) /\ a_cap d' = capacity)
+         (fun s' => arr_world mgr isz d ext s').
+Proof. exact EffectsProofs.array_addback_grow_post. Qed.
+Print Assumptions C03_array_addback_grow_no_leak.
+
+(* ~Array: zero live cells of the array, zero blocks *)
+Theorem C03_array_destroy_releases_everything :
+  forall mgr isz d ext s,
+    arr_world mgr isz d ext s ->
+    post (array_destroy mgr isz d) s (fun _ s' => st_is s' ext [] (nextb s)) (fun _ => False).
+Proof. exact EffectsProofs.array_destroy_post. Qed.
+Print Assumptions C03_array_destroy_releases_everything.
+
+(* closed forms (non-vacuous): a concrete array of count items, every schedule, every count and capacities *)
+Theorem C03_array_regrow_then_destroy_any_schedule :
+  forall c mgr isz count cap newcap sch,
+    cap <> O -> newcap <> O ->
+    let d := mkA 0 count cap in
+    post (array_op_then_destroy mgr isz d (array_regrow c mgr isz d newcap)) (arr_init mgr isz count cap sch)
+         (fun _ s' => st_is s' arg_only [] (nextb s')) (fun s' => st_is s' arg_only [] (nextb s')).
+Proof. exact EffectsProofs.array_regrow_any_schedule. Qed.
+Print Assumptions C03_array_regrow_then_destroy_any_schedule.
+
+Theorem C03_array_addback_then_destroy_any_schedule :
+  forall c mgr isz count cap newcap sch,
+    cap <> O -> newcap <> O ->
+    let d := mkA 0 count cap in
+    post (array_op_then_destroy mgr isz d (array_addback_grow c mgr isz d newcap (-3, 0))) (arr_init mgr isz count cap sch)
+         (fun _ s' => st_is s' arg_only [] (nextb s')) (fun s' => st_is s' arg_only [] (nextb s')).
+Proof. exact EffectsProofs.array_addback_any_schedule. Qed.
+Print Assumptions C03_array_addback_then_destroy_any_schedule.
+
+(* ---- constructor catch blocks as they are after fix 806b9fe.  The copy constructors of HashSet and TreeSet DELEGATE, so
+   when the body throws the destructor runs too.  For every schedule and every item count: the constructor body, its catch
+   block (pvDestroy + nulling the pointers) and the destructor never destroy an item twice, never free a block twice, never
+   touch a freed block, and leave exactly the state before the call (no block, no copied item). *)
+Theorem C03_hashset_copy_ctor_no_leak :
+  forall mgr bufsz parsz crewsz sr n s f bs,
+    fresh_world s f bs -> (forall k, 0 <= k < Z.of_nat n -> f (sr, 0 + k) = true) ->
+    post (hs_copy_then_destroy mgr bufsz parsz crewsz true sr n) s
+         (fun _ s' => st_is s' f bs (nextb s')) (fun s' => st_is s' f bs (nextb s')).
+Proof. exact EffectsProofs.hs_copy_then_destroy_post. Qed.
+Print Assumptions C03_hashset_copy_ctor_no_leak.
+
+Theorem C03_treeset_copy_ctor_no_leak :
+  forall mgr crewsz nodesz tparsz sr n s f bs,
+    fresh_world s f bs -> (forall k, 0 <= k < Z.of_nat n -> f (sr, 0 + k) = true) ->
+    post (ts_copy_then_destroy mgr crewsz nodesz tparsz true sr n) s
+         (fun _ s' => st_is s' f bs (nextb s')) (fun s' => st_is s' f bs (nextb s')).
+Proof. exact EffectsProofs.ts_copy_then_destroy_post. Qed.
+Print Assumptions C03_treeset_copy_ctor_no_leak.
+
+Theorem C03_hashset_copy_ctor_any_schedule :
+  forall mgr bufsz parsz crewsz (n : nat) (sch : list bool),
+    post (hs_copy_then_destroy mgr bufsz parsz crewsz true (-1) n) (init_state (-1) (Z.of_nat n) sch)
+         (fun _ s' => only_sources_left (Z.of_nat n) s') (fun s' => only_sources_left (Z.of_nat n) s').
+Proof. exact EffectsProofs.hs_copy_any_schedule. Qed.
+Print Assumptions C03_hashset_copy_ctor_any_schedule.
+
+Theorem C03_treeset_copy_ctor_any_schedule :
+  forall mgr crewsz nodesz tparsz (n : nat) (sch : list bool),
+    post (ts_copy_then_destroy mgr crewsz nodesz tparsz true (-1) n) (init_state (-1) (Z.of_nat n) sch)
+         (fun _ s' => only_sources_left (Z.of_nat n) s') (fun s' => only_sources_left (Z.of_nat n) s').
+Proof. exact EffectsProofs.ts_copy_any_schedule. Qed.
+Print Assumptions C03_treeset_copy_ctor_any_schedule.
+
+(* the constructor shape BEFORE the fix is refuted: a schedule and a count for which the destructor after the failed
+   delegating constructor destroys / frees twice (the machine is Stuck) - kept so that a regression has a named witness *)
+Theorem C03_ctor_double_destroy_refuted :
+  exists (sch : list bool) (n : nat),
+    is_stuck (hs_copy_then_destroy 1 64 16 24 false (-1) n (init_state (-1) (Z.of_nat n) sch)) = true /\
+    is_stuck (ts_copy_then_destroy 1 24 96 168 false (-1) n (init_state (-1) (Z.of_nat n) sch)) = true.
+Proof. exact EffectsProofs.ctor_double_destroy_refuted. Qed.
+Print Assumptions C03_ctor_double_destroy_refuted.
